@@ -2,7 +2,10 @@
 //!   (a) `fixed::Document::xotify`,
 //!   (b) parsing the default serialisation of (a),
 //!   (c) three stepwise construction orders through the public creation / manipulation API
-//!       (top-down, bottom-up, right-to-left via `prepend` / `insert_before`).
+//!       (top-down, bottom-up, right-to-left via `prepend` / `insert_before`),
+//!   (d) random construction programs (`shuffled_build` below; `suite_fanyorder.rs`: any
+//!       interleaving of creation, attachment, attribute / namespace insertion, text in pieces),
+//!       the latter also run on the ordered-tree specification (`forest prog spec`).
 //! Routes (a) and (c) are also run by the model (`forest fixed <route> <document>`), the whole
 //! forest is dumped after each and compared (`forest dump`).
 //! Oracle (implementation only): the routes are pairwise `deep_equal`, read back to the same raw
@@ -483,6 +486,23 @@ fn one_case(rng: &mut Rng, sink: &mut Sink, profile: Profile, doc: Option<GTree>
             built.push(Built { route: "shuffled", node: s.nodes[root] });
         }
     }
+    // any-order construction programs (suite_fanyorder.rs): creation, attachment, attribute and
+    // namespace insertion and text pieces randomly interleaved; also run on the specification
+    if !panicked && (!s.xot_consolidation() || no_adjacent_text(&t)) {
+        for _ in 0..2 {
+            match crate::suite_fanyorder::anyorder_build(&mut s, sink, rng, &t) {
+                Some(root) => {
+                    s.exec(sink, "dump");
+                    s.exec(sink, "inv");
+                    built.push(Built { route: "anyorder", node: s.nodes[root] });
+                }
+                None => {
+                    fail(sink, &s, "C20:anyorder-step-refused", &format!("a step of a random construction program of {} was refused", t.wire()));
+                    return;
+                }
+            }
+        }
+    }
     if panicked {
         let route = ["xotify", "topdown", "bottomup", "rtl"][built.len().min(3)];
         fail(sink, &s, &format!("C20:{}-panics", route), &format!("route {} panicked on the well-formed document {}", route, t.wire()));
@@ -614,5 +634,11 @@ pub fn run(seed: u64, count: usize, tier: &str, sink: &mut Sink) {
             _ => Profile::IllFormed,
         };
         one_case(&mut rng, sink, profile, None);
+        if i % 8 == 7 {
+            // mixed content with longer text nodes: text delivered in pieces, in any order
+            let d = crate::suite_fanyorder::gen_mixed_doc(&mut rng);
+            sink.stat("mixed-content-document");
+            one_case(&mut rng, sink, Profile::Open, Some(d));
+        }
     }
 }
